@@ -34,17 +34,30 @@ fn main() {
     let stdin = io::stdin();
     let stdout = io::stdout();
     let mut out = io::BufWriter::new(stdout.lock());
+    let watchdog = std::time::Duration::from_secs(
+        std::env::var("VERIF_CASE_TIMEOUT").ok().and_then(|s| s.parse().ok()).unwrap_or(20));
     for line in stdin.lock().lines() {
         let line = line.unwrap();
-        let fields: Vec<&str> = line.split(' ').filter(|s| !s.is_empty()).collect();
-        if fields.is_empty() {
+        if line.split(' ').all(|s| s.is_empty()) {
             writeln!(out).unwrap();
             continue;
         }
-        let r = util::guarded(|| dispatch(fields[0], &fields[1..]));
-        match r {
+        // every case runs on its own thread under a watchdog: a case that does not return is
+        // reported as HANG and the process exits (the driver restarts it on the remaining cases)
+        let (tx, rx) = std::sync::mpsc::channel();
+        let l2 = line.clone();
+        std::thread::Builder::new().stack_size(64 << 20).spawn(move || {
+            let fields: Vec<&str> = l2.split(' ').filter(|s| !s.is_empty()).collect();
+            let r = util::guarded(|| dispatch(fields[0], &fields[1..]));
+            let _ = tx.send(match r { Ok(s) => s, Err(p) => format!("PANIC {}", p.replace('\n', " ")) });
+        }).unwrap();
+        match rx.recv_timeout(watchdog) {
             Ok(s) => writeln!(out, "{}", s).unwrap(),
-            Err(p) => writeln!(out, "PANIC {}", p.replace('\n', " ")).unwrap(),
+            Err(_) => {
+                writeln!(out, "HANG no result within {} s", watchdog.as_secs()).unwrap();
+                out.flush().unwrap();
+                std::process::exit(3);
+            }
         }
     }
     out.flush().unwrap();
